@@ -52,8 +52,14 @@ def resolve (cls : Nat) (k : Kind) (user : Option UserFactors) : Option Factors 
   else if k.spec = specUSER then
     user.bind fun u =>
       let want : Option Nat := if cls = 0 then none else some (effectiveClass cls k.type)
-      (u.rows.find? fun r => r.1 = want).map fun r => ⟨r.2, u.lhv, u.wtt⟩
+      -- a row that names no consumer class holds for every consumer (repo 27df382; as found: `resolveUserLegacy`)
+      ((u.rows.find? fun r => r.1 = want).orElse fun _ => u.rows.find? fun r => r.1 = none).map fun r => ⟨r.2, u.lhv, u.wtt⟩
   else none
+
+/-- As found: a user's row is matched by exact equality of the class, so a class-less row is never found once a class is given. -/
+def resolveUserLegacy (cls : Nat) (k : Kind) (u : UserFactors) : Option Factors :=
+  let want : Option Nat := if cls = 0 then none else some (effectiveClass cls k.type)
+  (u.rows.find? fun r => r.1 = want).map fun r => ⟨r.2, u.lhv, u.wtt⟩
 
 /-- `FuelConsumption.get_total_co2_emissions(cls)` for a record of one specification.
 A scalar record that burned nothing has an empty fraction record: no factor is looked up and the
